@@ -298,7 +298,7 @@ func ceilDiv(a, b int64) int64 { return (a + b - 1) / b }
 // ---------------------------------------------------------------- run
 
 func run(c *hc.Ctx) error {
-	r := c.Rng
+	r := c.Rng.Fork() // hc.NewRNG(seed) streams of neighbouring seeds are the same sequence shifted by one draw and re-synchronise; a fork lands far away
 	var lines, impls, kinds []string
 
 	// ---- 1. part arithmetic: translated Go functions vs the real ones
